@@ -12,8 +12,8 @@ import (
 func init() {
 	FlagUseASM = cpu.CPU.Supports(cpu.AVX, cpu.AVX2, cpu.SSE, cpu.SSE2, cpu.SSE4)
 	if FlagUseASM {
-		ForwardDCT256 = asmForwardDCT256
-		ForwardDCT64 = asmForwardDCT64
+		ForwardDCT256 = checkedAsmForwardDCT256
+		ForwardDCT64 = checkedAsmForwardDCT64
 		YCbCrToGray = AsmYCbCrToGray
 	}
 }
@@ -34,4 +34,18 @@ func AsmYCbCrToGray(c *image.YCbCr, pixels []float32) {
 		return
 	}
 	asmYCbCrToGray(pixels, 0, 0, w, h, c.Y, c.Cb, c.Cr, c.YStride, c.CStride)
+}
+
+// The assembly kernels take the base pointer of their argument and transform 64 (256) floats
+// from there; like the portable kernels, the exported entry points refuse a shorter slice
+// instead of reading and writing behind it.
+
+func checkedAsmForwardDCT64(input []float32) {
+	_ = input[63]
+	asmForwardDCT64(input)
+}
+
+func checkedAsmForwardDCT256(input []float32) {
+	_ = input[255]
+	asmForwardDCT256(input)
 }
